@@ -89,7 +89,33 @@ def EXHAUSTIVE(tier, counters):
     }
 
 
+def at_scale_case(ctx, g, rng):
+    """thousands of URIs over dozens of prefixes (far above any plausible batch size), with and without cutoff"""
+    import curies
+
+    api, S = ctx.api, probe.S
+    n = rng.choice([3000, 20000]) if ctx.tier == "thorough" else 1200
+    hosts = [f"http://h{i}/" + rng.choice(["", "a_", "b#", "c/d/"]) for i in range(rng.randint(5, 60))]
+    uris = [rng.choice(hosts) + rng.choice(["", "x"]) + str(rng.randint(0, 400)) for _ in range(n)]
+    uris += [rng.choice(hosts) + "bad-tail!" for _ in range(20)]
+    conv = None
+    if rng.random() < 0.4:
+        with probe.monitor_mode():
+            conv = api.Converter([api.Record(prefix="k", uri_prefix=hosts[0]), api.Record(prefix="j", uri_prefix=hosts[-1] + "x")])
+    kw = {"cutoff": rng.choice([None, 1, 3, 50])}
+    if conv is not None:
+        kw["converter"] = conv
+    o = call(curies.discover, rng.choice([uris, set(uris), iter(uris)]), **kw)
+    if o[0] == "ret":
+        for u in rng.sample(uris, k=20):
+            call(o[1].compress, u)
+    S.counters[f"wl:at-scale:n{n}"] += 1
+    probe.note_key(f"at-scale:n{n}:c{kw['cutoff']}:k{int(conv is not None)}", True)
+
+
 def run_case(ctx, g, rng):
+    if g % 300 == 300 - 1:
+        return at_scale_case(ctx, g, rng)
     import curies
 
     api, S = ctx.api, probe.S
